@@ -9,9 +9,11 @@
 (*         "rule"  a registered QubitUnitary decomposition rule (name in conv)        *)
 (*         "u2r"   the unitary_to_rot transform on a tape holding QubitUnitary(U)     *)
 (*         "full"  decompose(...) of QubitUnitary(U) down to rotations and CNOTs      *)
-(*         "class" no call: a classifier control (exp = expected CNOT class)          *)
+(*         "input" no call: the exact matrix u of an input (answered with its class)  *)
+(*         "class" no call: a classifier control (exp = textbook CNOT class of u)     *)
 (*   n     number of wires of U;  tw  positions of the wires handed to the call       *)
-(*   u     the exact matrix of U over D[omega] (emitted by TLC from the input word)   *)
+(*   u     (input traces) the exact matrix of U over D[omega], emitted by TLC from    *)
+(*         the input word; call traces refer to their input by position (driver)      *)
 (*   conv  rotation convention ("ZYZ","XYX","XZX","ZXZ","rot") or ""      *)
 (*   gp    1 global phase requested, 0 not requested, 2 optional (rules)   *)
 (*   err   "" or the class of the exception raised                         *)
@@ -98,8 +100,7 @@ ConFull(t) ==
 
 ByWidth(t, gp) == IF t.n = 1 THEN ConOne(t, IF t.conv = "" THEN "ZYZ" ELSE t.conv, gp) ELSE IF t.n = 2 THEN ConTwo(t) ELSE ConMulti(t)
 Contract(t) ==
-  IF t.kind = "class" THEN "ok"
-  ELSE IF t.err # "" THEN "raises"
+  IF t.err # "" THEN "raises"
   ELSE CASE t.kind = "one" -> ConOne(t, t.conv, t.gp)
          [] t.kind = "two" -> ConTwo(t)
          [] t.kind = "multi" -> ConMulti(t)
@@ -108,14 +109,21 @@ Contract(t) ==
          [] t.kind = "u2r" -> ConU2R(t)
          [] t.kind = "full" -> ConFull(t)
          [] OTHER -> "bad-case:kind"
-\* <<"V", tid, contract verdict, flags of U, minimal CNOT class (-1 unless two qubits), CNOTs used, classifier self-check>>
-Report(t) == Bind(MData(t.u), LAMBDA u :
-   Bind(IF t.n = 2 THEN SyCnotClass(u) ELSE -1, LAMBDA c :
-     <<"V", tid, Contract(t), SyFlags(u), c, CountG(t, "CNOT"),
-       IF ~IsUnitary(u) THEN "input-not-unitary"
-       ELSE IF t.n = 2 /\ ~SyClassInvariant(u, c) THEN "classifier-not-invariant"
-       ELSE IF t.kind = "class" /\ t.exp >= 0 /\ t.exp # c THEN "classifier-disagrees-with-known-class"
-       ELSE "ok">>))
+\* Two sorts of traces.  An INPUT trace (kind "input" / "class") carries the exact matrix u and is answered with what the input is:
+\*   <<"V", tid, "ok", flags of U, minimal CNOT class (-1 unless two qubits), 0, classifier self-check>>
+\* a CALL trace carries the returned operators and is answered with the contract verdict:
+\*   <<"V", tid, contract verdict, 0, -1, CNOTs used, "ok">>
+IsInput(t) == t.kind \in {"input", "class"}
+Report(t) ==
+  IF IsInput(t) THEN
+    Bind(MData(t.u), LAMBDA u :
+      Bind(IF t.n = 2 THEN SyCnotClass(u) ELSE -1, LAMBDA c :
+        <<"V", tid, "ok", SyFlags(u), c, 0,
+          IF ~IsUnitary(u) THEN "input-not-unitary"
+          ELSE IF t.n = 2 /\ ~SyClassInvariant(u, c) THEN "classifier-not-invariant"
+          ELSE IF t.kind = "class" /\ t.exp # c THEN "classifier-disagrees-with-known-class"
+          ELSE "ok">>))
+  ELSE <<"V", tid, Contract(t), 0, -1, CountG(t, "CNOT"), "ok">>
 Init == tid \in 1..NTRACES /\ done = FALSE
 Next == ~done /\ done' = TRUE /\ UNCHANGED tid /\ PrintT(Report(Traces[tid]))
 =============================================================================
